@@ -104,6 +104,12 @@ def run_c03(tier):
     r = core.run_tlc("MC_Pattern.tla", "MC_Pattern_%s.cfg" % tier, timeout=3000, on_emit=on_emit)
     if r.violation:
         raise core.InfraError("TLC: design-level invariant violated in MC_Pattern:\n" + r.raw_tail[-2000:])
+    # strings of the shape %a( ... )%: what may stand between the parentheses (quotes, parentheses, spaces)
+    rf = core.run_tlc("MC_Pattern.tla", "MC_Pattern_fn_%s.cfg" % tier, timeout=3000, on_emit=on_emit)
+    if rf.violation:
+        raise core.InfraError("TLC: design-level invariant violated in MC_Pattern (fn):\n" + rf.raw_tail[-2000:])
+    r.states += rf.states
+    r.generated += rf.generated
     items = [Item(c, rng) for c in cases]
     counts = {"ok": 0, "reject": 0, "unconstrained": 0}
     for it in items:
@@ -310,15 +316,25 @@ def env_cases(v, table, wd, rng):
     expect["t1"] = ("error", "parameter todo")
     params["t2"] = '%todo("later")%'
     expect["t2"] = ("error", "later")
+    # a function registered under the name of a built-in replaces it (docs/META.md: functions: {"env": "os.Getenv"})
     doc = {"meta": {"imports": {"fx": "probe.test/fx"}, "functions": {"fnE": "fx.FnE"}}, "parameters": params}
+    doc2 = {"meta": {"imports": {"fx": "probe.test/fx"}, "functions": {"env": "fx.Fn", "todo": "fx.FnInt"}},
+            "parameters": {"o1": '%env("VERIF_E0")%', "o2": "%todo()%", "o3": '%envInt("VERIF_UNSET_X", 3)%'}}
+    expect2 = {"o1": ("string", 'probe.test/fx.Fn("VERIF_E0")'), "o2": ("int", 40), "o3": ("int", 3)}
     d = os.path.join(wd, "env")
     os.makedirs(d)
     with open(os.path.join(d, "in.yaml"), "w") as f:
         f.write(concretise.emit(doc, rng) + "\n")
+    d2 = os.path.join(wd, "env2")
+    os.makedirs(d2)
+    with open(os.path.join(d2, "in.yaml"), "w") as f:
+        f.write(concretise.emit(doc2, rng) + "\n")
     pool = core.DriverPool(1)
     try:
-        rs = pool.run_all([{"id": 0, "dir": d, "args": ["-i", "in.yaml", "-o", "out.go"], "version": "dev-main", "buildinfo": "verif",
-                            "out": "out.go", "want_out": True}])[0]
+        rs, rs2 = pool.run_all([{"id": 0, "dir": d, "args": ["-i", "in.yaml", "-o", "out.go"], "version": "dev-main", "buildinfo": "verif",
+                                 "out": "out.go", "want_out": True},
+                                {"id": 1, "dir": d2, "args": ["-i", "in.yaml", "-o", "out.go"], "version": "dev-main", "buildinfo": "verif",
+                                 "out": "out.go", "want_out": True}])
     finally:
         pool.close()
     if rs["exit"] != 0:
@@ -326,13 +342,27 @@ def env_cases(v, table, wd, rng):
         return 0
     pb = probemod.Probe(name="probe-C03-env")
     pb.add("envpkg", rs["out_data"])
-    if "envpkg" not in set(pb.build()):
+    if rs2["exit"] == 0:
+        pb.add("envpkg2", rs2["out_data"])
+    else:
+        v.disagree("env-config-rejected", {"yaml": concretise.emit(doc2, None)}, {"errors": core.Report(rs2["stdout"]).errors[:5]})
+    built = set(pb.build())
+    if "envpkg" not in built:
         return 0
     names = sorted(expect)
     ops = [{"op": "Env", "set": {k: x for k, x in envops.items() if x is not None}, "unset": [k for k, x in envops.items() if x is None]}]
     ops += [{"op": "GetParam", "id": n} for n in names]
-    rr = pb.run([{"id": 0, "pkg": "envpkg", "ops": ops}])[0]
+    scripts = [{"id": 0, "pkg": "envpkg", "ops": ops}]
+    if "envpkg2" in built:
+        scripts.append({"id": 1, "pkg": "envpkg2", "ops": [{"op": "GetParam", "id": n} for n in sorted(expect2)]})
+    outs = pb.run(scripts)
+    rr = outs[0]
     shutil.rmtree(pb.dir, ignore_errors=True)
+    if 1 in outs and not outs[1].get("crashed") and not outs[1].get("err"):
+        for n, o in zip(sorted(expect2), outs[1]["res"]):
+            if "ok" not in o or observed_lit(o["ok"]) != expect2[n]:
+                v.disagree("user-function-does-not-replace-built-in", {"param": doc2["parameters"][n], "functions": doc2["meta"]["functions"]},
+                           {"expected": expect2[n], "observed": o})
     if rr.get("crashed") is not None or rr.get("err"):
         v.disagree("probe", {"env": True}, {k: rr.get(k) for k in ("crashed", "err", "stderr")})
         return 0
